@@ -23,7 +23,8 @@ _NS = 'self.tuple_of_nests'
 # ASSUMED (decided by the bounded stand-in bounded/c05_nests_native.py, mode partition): check_partition accepts only
 # pairwise disjoint nests that do not meet the alternatives left alone
 contract('biogeme.nests.NestsForNestedLogit.check_partition', P, verify=False, modifies=[], returns='tuple[bool, str]',
-         ensures={'accepted_means_disjoint':
+         ensures={'accepted_means_partition': 'implies(result[0], c05c_partition(self))',
+                  'accepted_means_disjoint':
                   f"implies(result[0], forall(lambda a: forall(lambda b: implies(a != b, forall(lambda p: forall(lambda r: "
                   f"{_NS}[a].list_of_alternatives[p] != {_NS}[b].list_of_alternatives[r], 0, len({_NS}[b].list_of_alternatives)), "
                   f"0, len({_NS}[a].list_of_alternatives))), 0, len({_NS})), 0, len({_NS})))",
@@ -121,30 +122,75 @@ contract(M + 'get_mev_for_nested', P, nla_uf=True, replay=_REPLAY_NESTED,
          ensures={'domain_alone': _DOM_ALONE.replace('log_gi', 'result'),
                   'domain_nests': _DOM_K.replace('log_gi', 'result').replace('_k', f'len({T})'),
                   'nest_terms': _VAL_K.replace('log_gi', 'result').replace('_k', f'len({T})'),
-                  'alone_zero': _ALONE_K.replace('log_gi', 'result')},
+                  'alone_zero': _ALONE_K.replace('log_gi', 'result'),
+                  'nests_are_a_partition': 'c05c_partition(nests)'},
          invariants={1: {'clauses': {'domain_alone': _DOM_ALONE, 'domain_nests': _DOM_K, 'nest_terms': _VAL_K, 'alone_zero': _ALONE_K}},
                      # the two ways of starting (alone None / a set) are kept apart: each runs the outer loop (1 / 4) and, per
                      # availability branch, one copy of the inner loop (2, 3 / 5, 6)
                      4: {'clauses': {'domain_alone': _DOM_ALONE, 'domain_nests': _DOM_K, 'nest_terms': _VAL_K, 'alone_zero': _ALONE_K}},
                      **{o: {'clauses': dict(_INNER)} for o in (2, 3, 5, 6)}})
 
-# ---------------------------------------------------------------------------------------- lognested / nested (composition)
+# ---------------------------------------------------------------------------------------- lognested / nested: closed form
 # lognested = logmev(util, get_mev_for_nested(util, availability, nests), availability, choice); nested = mev(the same).
-# Proved here: the two verified contracts COMPOSE for every nest structure (obligations pre@callsite): the dictionary of
-# generating terms has a term for every alternative of `util` (no KeyError inside logmev) as soon as every alternative is
-# alone or in a nest.  The closed form of the composed value is the MEV kernel (contract of logmev / mev) over the terms
-# characterised by the contract of get_mev_for_nested; it is not restated as one formula (the nest of an alternative is not
-# a function the engine can name) and stays covered end-to-end by the bounded translation validation.
+# ONE postcondition over util / availability / nests: the log-sum-exp kernel with  h_k = V_k + c05c_lng(nests, util, av, k),
+# where c05c_lng is DEFINED in specs/c05c_specs.py (the nested-logit term of the nest of k, 0 outside every nest).
 _COVER = (f"forall(lambda q: {_IN_ALONE.replace('x in', 'keys_of(util)[q] in')} or exists(lambda a: exists(lambda p: "
           f"keys_of(util)[q] == {T}[a].list_of_alternatives[p], 0, len({T}[a].list_of_alternatives)), 0, len({T})), 0, len(util))")
 _REQ_L = dict(_REQ)
 _REQ_L['every_alternative_alone_or_in_a_nest'] = _COVER
-for fn in ('lognested', 'nested'):
-    contract(M + fn, P, nla_uf=True,
+
+
+def _closed(text: str) -> str:
+    """the MEV kernel text of contracts/c05c_builders.py with the generating terms replaced by the closed form"""
+    out = Bd._rename(text, 'av', AV)
+    return out.replace('c05c_val(log_gi[', f'c05c_lng(nests, util, {AV}, ').replace('])', '))')
+
+
+_LNG = lambda k: f"c05c_lng(nests, util, {AV}, {k})"       # noqa: E731
+_KU = 'keys_of(util)[q]'
+_CHN = 'int(c05c_num(choice))'
+_HN = lambda k: f"(c05c_val(util[{k}]) + {_LNG(k)})"        # noqa: E731
+_AVN = f"typed({AV}, 'dict[int, Expression]')"
+_SAMEN = f'forall(lambda q: keys_of(util)[q] in {AV}, 0, len(util))'
+_T_AV_N = f"ite(c05c_val({_AVN}[{_KU}]) != 0.0, app('numpy.exp', {_HN(_KU)} - {_HN(_CHN)}), 0.0)"
+_T_FULL_N = f"app('numpy.exp', {_HN(_KU)} - {_HN(_CHN)})"
+_A_AV_N = f"{AV} is not None and {_CHN} in util and {_CHN} in {AV} and {_SAMEN} and c05c_val({_AVN}[{_CHN}]) != 0.0"
+_A_UNAV_N = f"{AV} is not None and {_CHN} in util and {_CHN} in {AV} and {_SAMEN} and c05c_val({_AVN}[{_CHN}]) == 0.0"
+_A_FULL_N = f"{AV} is None and {_CHN} in util"
+_TERMS_ARE_LNG = (f"forall(lambda q: c05c_val(log_gi[{_KU}]) == {_LNG(_KU)}, 0, len(util)) and "
+                  f"implies({_CHN} in util, c05c_val(log_gi[{_CHN}]) == {_LNG(_CHN)})")
+
+
+_DEF = f"lambda: c05c_lng_definition(nests, util, {AV})"
+_ALT_AP = f"{T}[a].list_of_alternatives[p]"
+_ALL_AP = lambda body: (f"forall(lambda a: forall(lambda p: {body}, 0, len({T}[a].list_of_alternatives)), 0, len({T}))")   # noqa: E731
+_STEPS = [
+    # explicit proof steps at the return point (the definition of c05c_lng is a hypothesis of steps 1-3 only)
+    f"c05c_cut_with('step1:the-nest-of-an-alternative-of-nest-a-is-a', {_DEF}, lambda: c05c_partition(nests) and "
+    + _ALL_AP(f"c05c_innest(nests, {_ALT_AP}) and c05c_nestof(nests, {_ALT_AP}) == a") + ")",
+    f"c05c_cut_with('step2:closed-form-on-the-alternatives-of-a-nest', {_DEF}, lambda: "
+    + _ALL_AP(f"{_LNG(_ALT_AP)} == {G(T + '[a]', _ALT_AP)}") + ")",
+    f"c05c_cut_with('step3:closed-form-is-zero-on-alternatives-left-alone', {_DEF}, lambda: "
+    f"forall(lambda x: implies({_IN_ALONE}, {_LNG('x')} == 0), ty='int'))",
+    f"c05c_cut('step4:generating-terms-are-the-closed-form', lambda: {_TERMS_ARE_LNG})",
+    f"c05c_cut_with('PROBE:false', {_DEF}, lambda: 1 == 2)",
+]
+
+
+def _closed_form(wrap: bool) -> dict:
+    pre, post = ("app('numpy.exp', ", ')') if wrap else ('', '')
+    return {
+        'closed_form': f"implies({_A_AV_N}, c05c_val(result) == {pre}-app('numpy.log', sum_range(lambda q: {_T_AV_N}, 0, len(util))){post})",
+        'closed_form_unavailable_choice': f"implies({_A_UNAV_N}, c05c_val(result) == {pre}-c05c_inf(){post})",
+        'closed_form_full_choice_set': f"implies({_A_FULL_N}, c05c_val(result) == {pre}-app('numpy.log', sum_range(lambda q: {_T_FULL_N}, 0, len(util))){post})",
+    }
+
+
+for fn, wrap in (('lognested', False), ('nested', True)):
+    contract(M + fn, ['C05', 'C06'], nla_uf=True,
              types={'util': 'dict[int, Expression]', 'availability': 'dict[int, Expression] | None', 'nests': 'NestsForNestedLogit'},
              requires=_REQ_L, modifies=[], may_raise=['BiogemeError'],
              raises={'TypeError': N._NOT_OPERAND.format('choice')},
-             ensures={'returns_an_expression': 'isinstance(result, Expression)'},
-             min_obligations=4, replay=_REPLAY_NESTED,
-             note='composition of the contracts of get_mev_for_nested and logmev / mev: the call-site preconditions are the '
-                  'obligations that matter here')
+             hints=_STEPS,
+             ensures=_closed_form(wrap),
+             min_obligations=4, replay=_REPLAY_NESTED)
